@@ -7,6 +7,8 @@ import (
 	"context"
 	"errors"
 	"math/rand"
+	"sort"
+	"sync"
 	"time"
 
 	"github.com/ava-labs/avalanchego/database"
@@ -75,6 +77,65 @@ type buildMirror struct {
 	ParentTs uint64         `json:"parentTs"`
 	BuildErr string         `json:"buildErr,omitempty"`
 	Outputs  []Output       `json:"outputs"`
+	Stream   []int          `json:"stream"`   // mempool indices in the order Mempool.Stream handed them out
+	Restored []int          `json:"restored"` // mempool indices handed back through Mempool.FinishStreaming (sorted)
+	Outcome  int            `json:"outcome"`  // 0 built | 1 ErrTimestampTooEarly | 2 ErrNoTxs | 3 other error
+}
+
+// recMempool is a recording proxy in front of the REAL mempool: every call is forwarded unchanged; the proxy
+// remembers what Stream handed to the builder and what the builder handed back through FinishStreaming (which
+// the builder calls from a goroutine: done is closed when it has returned).
+type recMempool struct {
+	inner    *mempool.Mempool[*hchain.Transaction]
+	mu       sync.Mutex
+	streamed []*hchain.Transaction
+	restored []*hchain.Transaction
+	finished bool
+	done     chan struct{}
+}
+
+func (m *recMempool) Len(ctx context.Context) int  { return m.inner.Len(ctx) }
+func (m *recMempool) Size(ctx context.Context) int { return m.inner.Size(ctx) }
+func (m *recMempool) Add(ctx context.Context, txs []*hchain.Transaction) {
+	m.inner.Add(ctx, txs)
+}
+func (m *recMempool) StartStreaming(ctx context.Context) { m.inner.StartStreaming(ctx) }
+func (m *recMempool) PrepareStream(ctx context.Context, n int) {
+	m.inner.PrepareStream(ctx, n)
+}
+
+func (m *recMempool) Stream(ctx context.Context, n int) []*hchain.Transaction {
+	txs := m.inner.Stream(ctx, n)
+	m.mu.Lock()
+	m.streamed = append(m.streamed, txs...)
+	m.mu.Unlock()
+	return txs
+}
+
+func (m *recMempool) FinishStreaming(ctx context.Context, restorable []*hchain.Transaction) int {
+	n := m.inner.FinishStreaming(ctx, restorable)
+	m.mu.Lock()
+	m.restored = append(m.restored, restorable...)
+	first := !m.finished
+	m.finished = true
+	m.mu.Unlock()
+	if first {
+		close(m.done)
+	}
+	return n
+}
+
+// bcaseCoq wraps the Chain_check case of the built block into the C02 case (Check/C02_check.v: mkBCase).
+func bcaseCoq(base string, pool []string, stream, dup, restored, included []int, targetTxs int, hdrH uint64, hdrTs int64, outcome int) string {
+	ns := func(xs []int) string {
+		items := make([]string, len(xs))
+		for i, x := range xs {
+			items[i] = emit.N(uint64(x))
+		}
+		return emit.List("N", items)
+	}
+	return emit.App("mkBCase", base, emit.List("tx", pool), ns(stream), ns(dup), ns(restored), ns(included),
+		emit.N(uint64(targetTxs)), emit.N(hdrH), emit.Z(hdrTs), emit.N(uint64(outcome)))
 }
 
 func genBuildScenario(r *rand.Rand) *BuildScenario {
@@ -84,6 +145,21 @@ func genBuildScenario(r *rand.Rand) *BuildScenario {
 	b.ParentAge = pick(r, []int64{150, 400, 800, 1000, 2500, 9000, 11000, 30})
 	if r.Intn(6) == 0 {
 		b.TargetTxs = 300 + r.Intn(1500) // size cap reached after a few txs
+	}
+	// mempool admission (chain/pre_executor.go) has verified every signature: BuildBlock never does
+	for i := range s.Txs {
+		s.Txs[i].AuthOK = true
+	}
+	switch r.Intn(6) {
+	case 0:
+		// block limits of a few transactions, targets far away: Consume fails -> skip and keep packing
+		s.Rules.MaxBlockUnits = [5]uint64{uint64(600 + r.Intn(3000)), uint64(10 + r.Intn(60)), uint64(40 + r.Intn(300)), uint64(100 + r.Intn(600)), uint64(60 + r.Intn(400))}
+	case 1:
+		// low targets under tight limits: a failing Consume finds the target reached -> errBlockFull
+		s.Rules.MaxBlockUnits = [5]uint64{uint64(600 + r.Intn(3000)), uint64(10 + r.Intn(60)), uint64(40 + r.Intn(300)), uint64(100 + r.Intn(600)), uint64(60 + r.Intn(400))}
+		for d := 0; d < 5; d++ {
+			s.Rules.Target[d] = s.Rules.MaxBlockUnits[d] / uint64(1+r.Intn(4))
+		}
 	}
 	for i := range s.Txs {
 		off := int64(1000 * (1 + r.Intn(40)))
@@ -175,8 +251,18 @@ func runBuild(b *BuildScenario) (emit.Case, error) {
 	for i, tx := range txs {
 		idxOf[tx.GetID()] = i
 	}
-	mp := mempool.New[*hchain.Transaction](trace.Noop, 10_000, 10_000)
+	mp := &recMempool{inner: mempool.New[*hchain.Transaction](trace.Noop, 10_000, 10_000), done: make(chan struct{})}
 	mp.Add(ctx, txs)
+	pool := make([]string, len(txs))
+	for i := range txs {
+		pool[i] = s.coqTx(i, txs[i])
+	}
+	dupIdx := []int{}
+	for _, i := range b.Dup {
+		if i < len(txs) {
+			dupIdx = append(dupIdx, i)
+		}
+	}
 	dup := set.NewSet[ids.ID](len(b.Dup))
 	for _, i := range b.Dup {
 		if i < len(txs) {
@@ -219,16 +305,47 @@ func runBuild(b *BuildScenario) (emit.Case, error) {
 
 	eb, ob, berr := builder.BuildBlock(ctx, &block.Context{}, parentOut)
 	sanity := ""
+	// the builder hands the restorable transactions back from a goroutine
+	// (not when it refused before it started streaming)
+	if berr == nil || !errors.Is(berr, hchain.ErrTimestampTooEarly) {
+		select {
+		case <-mp.done:
+		case <-time.After(20 * time.Second):
+			sanity = "builder never called FinishStreaming"
+		}
+	}
+	mp.mu.Lock()
+	for _, tx := range mp.streamed {
+		if i, ok := idxOf[tx.GetID()]; ok {
+			mir.Stream = append(mir.Stream, i)
+		}
+	}
+	restoredSet := map[int]bool{}
+	for _, tx := range mp.restored {
+		if i, ok := idxOf[tx.GetID()]; ok {
+			restoredSet[i] = true
+		}
+	}
+	mp.mu.Unlock()
+	mir.Restored = []int{}
+	for i := range restoredSet {
+		mir.Restored = append(mir.Restored, i)
+	}
+	sort.Ints(mir.Restored)
+	hdrH, hdrTs := s.ParentH, int64(s.ParentTs)
 	if berr != nil {
 		mir.BuildErr = berr.Error()
 		after := time.Now().UnixMilli()
 		// the builder may refuse only when the parent is too recent or when nothing is includable
+		mir.Outcome = 3
 		switch {
 		case errors.Is(berr, hchain.ErrTimestampTooEarly):
+			mir.Outcome = 1
 			if now-int64(s.ParentTs) >= rules.MinBlockGap+5 {
 				sanity = "builder refused with timestamp-too-early although the gap had passed"
 			}
 		case errors.Is(berr, hchain.ErrNoTxs):
+			mir.Outcome = 2
 			if now-int64(s.ParentTs) >= rules.MinEmptyBlockGap+5 {
 				sanity = "builder refused an empty block although the empty-block gap had passed"
 			}
@@ -246,7 +363,7 @@ func runBuild(b *BuildScenario) (emit.Case, error) {
 		s.BlockTs = now
 		s.BlockH = s.ParentH + 1
 		s.Txs = nil
-		c.Coq = s.coq(nil, outs)
+		c.Coq = bcaseCoq(s.coq(nil, outs), pool, mir.Stream, dupIdx, mir.Restored, nil, b.TargetTxs, hdrH, hdrTs, mir.Outcome)
 		return c, nil
 	}
 	mir.BlockTs = eb.Tmstmp
@@ -317,7 +434,8 @@ func runBuild(b *BuildScenario) (emit.Case, error) {
 	mir.Outputs = outs
 	if len(inclTxs) != len(eb.StatelessBlock.Txs) {
 		s.BlockTs, s.BlockH, s.Txs = eb.Tmstmp, eb.Hght, nil
-		return emit.Case{Coq: s.coq(nil, outs[1:2]), JSON: mir, Kind: "built", Sig: "built-block-contains-foreign-tx"}, nil
+		return emit.Case{Coq: bcaseCoq(s.coq(nil, outs[1:2]), pool, mir.Stream, dupIdx, mir.Restored, mir.Included, b.TargetTxs, hdrH, hdrTs, 0),
+			JSON: mir, Kind: "built", Sig: "built-block-contains-foreign-tx"}, nil
 	}
 	// the Coq case: the scenario restricted to the included transactions, at the built timestamp
 	s2 := *s
@@ -326,12 +444,36 @@ func runBuild(b *BuildScenario) (emit.Case, error) {
 	s2.Txs = inclTxs
 	inclObjs := make([]*hchain.Transaction, len(eb.StatelessBlock.Txs))
 	copy(inclObjs, eb.StatelessBlock.Txs)
+	// the Coq case carries every mempool transaction once (pool); the block's transactions are pool[included]
+	_ = inclObjs
+	s3 := s2
+	s3.Txs = nil
 	kind := "built"
 	if len(inclTxs) < len(s.Txs) {
 		kind = "built-with-skips"
+		// what the builder did with the candidates it left out
+		nDropped, nRestored := 0, 0
+		for i := range s.Txs {
+			if !seen[i] {
+				if restoredSet[i] {
+					nRestored++
+				} else {
+					nDropped++
+				}
+			}
+		}
+		switch {
+		case nRestored > 0 && nDropped > 0:
+			kind = "built-with-drops-and-restores"
+		case nRestored > 0:
+			kind = "built-with-restores"
+		}
+	}
+	if mir.Included == nil {
+		mir.Included = []int{}
 	}
 	return emit.Case{
-		Coq:        s2.coq(inclObjs, outs),
+		Coq:        bcaseCoq(s3.coq(nil, outs), pool, mir.Stream, dupIdx, mir.Restored, mir.Included, b.TargetTxs, hdrH, hdrTs, 0),
 		JSON:       mir,
 		Nontrivial: len(inclTxs) >= 1 && len(inclTxs) < len(s.Txs),
 		Kind:       kind,
